@@ -100,7 +100,7 @@ def replay_file(rec_list):
 
 
 def run_histories(ctx, res, n_hist, max_steps, store_kinds=("memory",), nfun=None, allow=("call", "ref", "keep", "datafn"),
-                  on_record=None, world_filter=None, extra_steps=None, edit_kinds=None, at_step=None):
+                  on_record=None, world_filter=None, extra_steps=None, edit_kinds=None, at_step=None, entry_kind=None):
     """runs `n_hist` histories; calls on_record(rec, session) after every evaluation step; returns all records"""
     rng = ctx["rng"]
     records = []
@@ -124,7 +124,7 @@ def run_histories(ctx, res, n_hist, max_steps, store_kinds=("memory",), nfun=Non
             msteps.append({"set_store": "noop" if store_kind == "noop" else "dict"})
             msteps.append({"world": progs.model_world(w, s.extmod)})
             entry0 = {"kind": "eval", "fun": "f0"}
-            if rng.random() < 0.3:
+            if rng.random() < 0.3 or entry_kind == "keep":
                 entry0 = {"kind": "keep", "fun": "f0", "path": "/top"}
             entry = entry0
             for si, (_, edit_kind) in enumerate(steps):
